@@ -251,6 +251,14 @@ CACHE_PAIRS = [({}, {'commaAtTheEndOfImport': True}), ({}, {'curlyBracesAroundEn
                ({'commaAtTheEndOfSequence': True}, {'mixOfCommasAndSpaces': True})]
 
 
+# texts every grammar accepts whose tree has a falsy leaf (the number 0, an empty list) where an action picks "x or y"
+DIRECTED_TEXTS = [
+    'ACME-Z-MIB DEFINITIONS ::= BEGIN abc OBJECT-TYPE SYNTAX X MAX-ACCESS read-only STATUS current DESCRIPTION "d" INDEX { 0 } ::= { abc 1 } END',
+    'ACME-Z-MIB DEFINITIONS ::= BEGIN abc OBJECT-TYPE SYNTAX X MAX-ACCESS read-only STATUS current DESCRIPTION "d" INDEX { 0 1, IMPLIED 0 } ::= { 0 } END',
+    'ACME-Z-MIB DEFINITIONS ::= BEGIN abc OBJECT-TYPE SYNTAX X MAX-ACCESS read-only STATUS current DESCRIPTION "" DEFVAL { 0 } ::= { abc 0 } END',
+]
+
+
 def cache_texts(modules, specials):
     """texts that tell the option sets of CACHE_PAIRS apart, plus ordinary modules"""
     out = list(modules[:2]) + [t for t in specials if t]
@@ -494,7 +502,7 @@ def run(ctx):
             texts.append(('min', S.render(gram.sentence_for(i), tab)))
             if ctx.tier != 'quick' or rng.random() < 0.5:
                 texts.append(('rand', S.render(gram.sentence_for(i, rng, 3), tab, rng, first_only=False)))
-        texts += [('module', t) for t in modules] + [('special', v2_special)]
+        texts += [('module', t) for t in modules] + [('special', v2_special)] + [('directed', t) for t in DIRECTED_TEXTS]
         if opts.get('supportSmiV1Keywords'):
             texts.append(('special', v1_special))
         sups = [(so, P.get(so)) for so in supersets(ctx, opts)]
